@@ -178,7 +178,7 @@ fn one_case<S: Shredder>(ctx: &mut Ctx, rng: &mut SRng, lane: &mut Lane<S>, sk: 
                 }
                 ctx.count_n("regenerated-shreds-compared", regenerated.len() as u64);
                 // regenerated shreds must validate from scratch under the leader's key
-                let to_verify: Vec<usize> = if verify_all { regenerated.clone() } else { regenerated.choose_multiple(rng, 2).copied().collect() };
+                let to_verify: Vec<usize> = if verify_all { regenerated.clone() } else { regenerated.sample(rng, 2).copied().collect() };
                 for i in to_verify {
                     let s = arr[i].as_ref().unwrap().as_shred().clone();
                     ctx.eval();
